@@ -9,6 +9,7 @@ import warnings
 from .. import driver, par
 from ..codec import enc
 from ..corr import runnercorr as R
+from ..corr import runnerenv as E
 from ..gen import runner_modules as G
 from ..shrink import shrink_list
 
@@ -42,6 +43,12 @@ ASSUMPTIONS = ['pytest reports an item whose runtest raises as failed, pytest.sk
                'K-C15-a: doctests starting with `>>> # pytest.skip` are excluded (disabled under pytest only, documented in the code)',
                'the run-loop model treats a run-time pytest.skip() like ExitTestException (result `exit`); the real Skipped is a BaseException and never reaches the expected-exception check, which differs only for a part whose want is a traceback block (not generated)']
 
+RULE = RULE + (' | every other configuration passes style / options / analysis / global-exec / cosmetic options / verbosity through a random '
+               'TREATMENT: pytest flags in both spellings, `addopts` of pytest.ini, XDOCTEST_* variables (flag over variable), with the '
+               'matching native arguments and the by-construction effect (corr/runnerenv.py); the same directory twice in one pytest '
+               'session; a module with 120 doctests / 60 failures (255, 256, 257 failures thorough) and a callable with 30..40 Example '
+               'blocks through both front ends; text files with 1..5 blocks under --xdoctest-glob x style (items vs by-construction '
+               'outcomes vs parser + DocTest.run in native mode)')
 STYLES = ['google', 'freeform', 'auto']
 WITNESS = {'name': 'kc15a_witness', 'funcs': [
     {'name': 'f0', 'cls': None, 'sig': '', 'blocks': [['pyskip', 1]]},
@@ -85,13 +92,23 @@ def _nontrivial(r):
 
 
 def _worker(args):
-    idx, style, optstr, opts, flag, seed, n, nsingle, expect_only = args
+    idx, style, optstr, opts, flag, seed, n, nsingle, expect_only = args[:9]
     rng = random.Random('c15:%d:%d' % (seed, idx))
+    # every other configuration: style, options and further settings reach the two front ends through a random
+    # TREATMENT (pytest flags in either spelling, `addopts` of the ini file, XDOCTEST_* variables, analysis,
+    # global-exec, cosmetic options, verbosity) instead of the two plain flags; see corr/runnerenv.py
+    treat = None
+    if idx % 2 == 1:
+        treat = E.draw(rng, style, optstr, opts, for_pytest=True)
+        style, opts = treat['style'], E.oracle_opts(treat)
     d = tempfile.mkdtemp(prefix='xdocverif-c15-')
     out = {'n': 0, 'suites': {}, 'nontrivial': set(), 'tags': {}, 'dis': [], 'exp': [], 'samples': [], 'unknown': 0}
     try:
         trace = os.path.join(d, 'trace.txt')
         specs = gen_modules(rng, style, opts, n, 'm%d' % idx)
+        if treat is not None and treat.get('needs_import'):
+            for sp in specs:
+                sp.pop('import_error', None)      # dynamic analysis has to import the module
         exp = {s['name']: R.expected_front_ends(s, style, opts) for s in specs}
         clean = [s for s in specs if not any(e['pytest'] == 'F' for e in exp[s['name']])]
         dirty = [s for s in specs if s not in clean]
@@ -103,8 +120,11 @@ def _worker(args):
         singles = (clean[:(nsingle + 1) // 2] + dirty[:nsingle // 2 + 1])[:nsingle]
         if singles:
             runs.append(('single', singles, {'per_module_pytest': True, 'native_cli': True}))
+        if idx % 4 == 0 and clean:
+            # STATE: the same directory twice in one pytest session
+            runs.append(('twice', clean[:3], {'twice': True}))
         for kind, ss, kw in runs:
-            for r in R.check_front_ends(d, ss, style, optstr, opts, flag, trace, use_model=not expect_only, **kw):
+            for r in R.check_front_ends(d, ss, style, optstr, opts, flag, trace, use_model=not expect_only, treat=treat, **kw):
                 out['n'] += r['n_doctests']
                 su = 'pytest+native:%s' % kind
                 out['suites'][su] = out['suites'].get(su, 0) + r['n_doctests']
@@ -121,6 +141,12 @@ def _worker(args):
                 if _nontrivial(r):
                     out['nontrivial'].add(hash((G.render(r['spec']), style, optstr, flag, kind)))
                 inp = {'spec': r['spec'], 'style': style, 'optstr': optstr, 'opts': opts, 'flag': flag}
+                if treat is not None:
+                    inp['treat'] = treat
+                    for nm in treat['name'].split('+'):
+                        out['tags']['opt:' + nm] = out['tags'].get('opt:' + nm, 0) + 1
+                if kind == 'twice':
+                    inp['twice'] = True
                 if r['dis'] and len(out['dis']) < 10:
                     out['dis'].append((inp, r.get('model'), '; '.join(r['dis'])))
                 if r['bad'] and len(out['exp']) < 10:
@@ -133,6 +159,138 @@ def _worker(args):
     finally:
         shutil.rmtree(d, ignore_errors=True)
     return out
+
+
+# ------------------------------------------------------------------ scale: many doctests / failures / blocks
+def scale_tasks(quick):
+    t = [('many', {'n': 120, 'nfail': 60, 'nskip': 10}), ('blocks', {'nblocks': 30, 'prose': 800})]
+    if not quick:
+        t += [('many', {'n': nf + 10, 'nfail': nf, 'nskip': 3}) for nf in (255, 256, 257)]
+        t += [('many', {'n': 200, 'nfail': 0, 'nskip': 200}), ('blocks', {'nblocks': 40, 'prose': 4000})]
+    return t
+
+
+def _scale_job(args):
+    idx, kind, prm, seed, expect_only = args
+    rng = random.Random('c15scale:%d:%d' % (seed, idx))
+    d = tempfile.mkdtemp(prefix='xdocverif-c15sc-')
+    out = {'n': 0, 'suites': {}, 'nontrivial': set(), 'tags': {}, 'dis': [], 'exp': [], 'samples': [], 'unknown': 0}
+    try:
+        if kind == 'many':
+            spec = G.scale_spec('psc%d' % idx, prm['n'], prm['nfail'], rng, prm['nskip'])
+        else:
+            spec = G.manyblock_spec('psb%d' % idx, prm['nblocks'], rng, prm['prose'])
+        style = rng.choice(STYLES)
+        r = R.check_front_ends(d, [spec], style, None, {}, '--xdoctest-options', os.path.join(d, 't.txt'),
+                               use_model=not expect_only, per_module_pytest=True, native_cli=True)[0]
+        out['n'] += r['n_doctests']
+        out['suites']['pytest+native:scale'] = r['n_doctests']
+        out['unknown'] += r['unknown']
+        out['tags']['scale:%s %r' % (kind, sorted(prm.items()))] = 1
+        out['nontrivial'].add(hash(('c15scale', kind, repr(prm), style)))
+        inp = {'spec': spec, 'style': style, 'optstr': None, 'opts': {}, 'flag': '--xdoctest-options'}
+        short = lambda x: x if not isinstance(x, list) or len(x) <= 12 else x[:6] + ['... %d entries ...' % len(x)] + x[-3:]
+        if r['dis']:
+            out['dis'].append((inp, None, '; '.join(r['dis'])[:1500]))
+        if r['bad']:
+            out['exp'].append((inp, short(r['expected']), {'pytest': short(r['pytest_items']), 'pytest_rc': r['pytest_rc'],
+                                                           'native': short(r['native']), 'native_rc': r['native_rc']},
+                               '; '.join(r['bad'])[:1500]))
+    finally:
+        shutil.rmtree(d, ignore_errors=True)
+    return out
+
+
+# ------------------------------------------------------------------ text files (pytest only: --xdoctest-glob)
+TEXT_KINDS = ['pass', 'failout', 'failexc', 'allskip', 'partskip', 'expexc', 'comment', 'disabled', 'failcompile']
+
+
+def text_file(blocks, name):
+    """a text file with several `Example:` blocks (no module, hence no `_trace`)"""
+    out = ['A text file with doctests.', '']
+    for n, (k, v) in enumerate(blocks):
+        out += ['Some prose before block %d.' % n, '', 'Example:']
+        out += ['    ' + l for l in G.block_lines(k, v, '%s:%d' % (name, n)) if "_trace(" not in l]
+        out += ['']
+    return '\n'.join(out) + '\n'
+
+
+def text_expect(blocks, name, style):
+    """outcomes pytest must report, in order: one item per block (google / auto), one merged item (freeform);
+    a force-disabled first block makes the item skipped"""
+    idents = ['%s:%d' % (name, n) for n in range(len(blocks))]
+    if style == 'freeform':
+        dts = [{'blocks': [(k, v, i) for (k, v), i in zip(blocks, idents)]}]
+    else:
+        dts = [{'blocks': [(k, v, i)]} for (k, v), i in zip(blocks, idents)]
+    return ['S' if G.disabled(dt, pytest=True) else G.doctest_outcome(dt, {})[0] for dt in dts]
+
+
+def _text_job(args):
+    idx, seed, nfiles, expect_only = args
+    import io
+    import contextlib
+    rng = random.Random('c15text:%d:%d' % (seed, idx))
+    d = tempfile.mkdtemp(prefix='xdocverif-c15tx-')
+    out = {'n': 0, 'suites': {}, 'nontrivial': set(), 'tags': {}, 'dis': [], 'exp': [], 'samples': [], 'unknown': 0}
+    try:
+        from xdoctest import core
+        style = STYLES[idx % 3]
+        sub = os.path.join(d, 'texts')
+        os.makedirs(sub)
+        files = []
+        for i in range(nfiles):
+            name = 'doc%d_%02d.txt' % (idx, i)
+            blocks = [(rng.choice(TEXT_KINDS), rng.randrange(20)) for _ in range(rng.randint(1, 5))]
+            # merged freeform doctests: the two-block rules of the generator apply (no force-disabled in the middle)
+            if style == 'freeform':
+                blocks = [(k if (j == 0 or k != 'disabled') else 'pass', v) for j, (k, v) in enumerate(blocks)]
+            with open(os.path.join(sub, name), 'w') as f:
+                f.write(text_file(blocks, name))
+            files.append((name, blocks))
+        r = R.pytest_subprocess(d, [os.path.join(sub, files[0][0])], style, '--xdoctest-options', None, os.path.join(d, 't.txt'),
+                                os.path.join(d, 'junit.xml'), extra_args=['--xdoctest-glob=*.txt'])
+        got = {}
+        for cls, nm, oc in (r['items'] or []):
+            got.setdefault(nm, []).append(oc)
+        anyf = False
+        for name, blocks in sorted(files):
+            exp = text_expect(blocks, name, style)
+            anyf = anyf or 'F' in exp
+            # the same text through the parser + DocTest.run in native mode (what the native runner would do)
+            text = open(os.path.join(sub, name)).read()
+            nat = []
+            with contextlib.redirect_stdout(io.StringIO()), warnings.catch_warnings():
+                warnings.simplefilter('ignore')
+                for ex in core.parse_docstr_examples(text, name, fpath=os.path.join(sub, name), style=style):
+                    ex.mode = 'native'
+                    if ex.is_disabled(pytest=True):
+                        nat.append('S')
+                        continue
+                    sm = ex.run(on_error='return', verbose=0)
+                    nat.append('S' if sm['skipped'] else ('P' if sm['passed'] else 'F'))
+            out['n'] += len(exp)
+            out['suites']['pytest:textfile'] = out['suites'].get('pytest:textfile', 0) + len(exp)
+            out['nontrivial'].add(hash(('text', text, style)))
+            why = []
+            if got.get(name, []) != exp:
+                why.append('pytest outcomes of the items of %s: %r, expected %r' % (name, got.get(name, []), exp))
+            if nat != exp:
+                why.append('parser + DocTest.run (native mode) on the same text: %r, expected %r' % (nat, exp))
+            if why and len(out['exp']) < 5:
+                out['exp'].append(({'textfile': text, 'name': name, 'style': style}, exp,
+                                   {'pytest': got.get(name), 'native': nat, 'pytest_rc': r['rc']}, '; '.join(why)))
+        if r['rc'] != (1 if anyf else 0) and len(out['exp']) < 5:
+            out['exp'].append(({'textfiles': [n for n, _ in files], 'style': style}, 1 if anyf else 0, r['rc'],
+                               'pytest exit status %r over the text files, expected %r: %s' % (r['rc'], 1 if anyf else 0, r['stdout'][-300:])))
+    finally:
+        shutil.rmtree(d, ignore_errors=True)
+    return out
+
+
+def _dispatch(job):
+    kind, args = job
+    return {'cfg': _worker, 'scale': _scale_job, 'text': _text_job}[kind](args)
 
 
 def _merge(corr, r):
@@ -211,8 +369,10 @@ def correspondence(ctx, corr):
     c10.disabled_unit(ctx, corr)     # is_disabled(pytest=False/True) vs the model, IGNORECASE tables
     cfgs = configs(ctx.quick, ctx.seed)
     n, ns = (6, 1) if ctx.quick else (24, 4)
-    args = [(i, st, o, od, fl, ctx.seed, n, ns, False) for i, (st, o, od, fl) in enumerate(cfgs)]
-    for r in par.pmap(_worker, args):
+    jobs = [('scale', (i, k, prm, ctx.seed, False)) for i, (k, prm) in enumerate(scale_tasks(ctx.quick))]
+    jobs += [('cfg', (i, st, o, od, fl, ctx.seed, n, ns, False)) for i, (st, o, od, fl) in enumerate(cfgs)]
+    jobs += [('text', (i, ctx.seed, 4 if ctx.quick else 20, False)) for i in range(3 if ctx.quick else 9)]
+    for r in par.pmap(_dispatch, jobs):
         _merge(corr, r)
 
 
@@ -220,7 +380,8 @@ def _check_one(inp, use_model=False):
     d = tempfile.mkdtemp(prefix='xdocverif-c15s-')
     try:
         r = R.check_front_ends(d, [inp['spec']], inp['style'], inp['optstr'], inp['opts'], inp['flag'],
-                               os.path.join(d, 't.txt'), use_model=use_model, per_module_pytest=True)[0]
+                               os.path.join(d, 't.txt'), use_model=use_model, per_module_pytest=True,
+                               treat=inp.get('treat'), twice=bool(inp.get('twice')))[0]
         return r
     finally:
         shutil.rmtree(d, ignore_errors=True)
@@ -298,7 +459,55 @@ def classify(ctx, hit):
     return 'K-C15-a'
 
 
+KMOD = ('def f():\n    """\n    Example:\n        >>> print(1)\n        1\n\n    Example:\n        >>> print(2)\n        3\n    """\n')
+
+
+def _witness_settings(ini_lines, env_extra):
+    """module f with two Example blocks (pass, fail by output) in a directory with the given pytest.ini /
+    environment; NO style or option flag on either command line.
+    returns (native verdict lines, native exit status, pytest items, pytest exit status)"""
+    import subprocess
+    import sys
+    d = tempfile.mkdtemp(prefix='xdocverif-c15k-')
+    try:
+        sub = os.path.join(d, 'pkgdir')
+        os.makedirs(sub)
+        with open(os.path.join(sub, 'kmod_verif.py'), 'w') as f:
+            f.write(KMOD)
+        with open(os.path.join(sub, 'pytest.ini'), 'w') as f:
+            f.write('\n'.join(['[pytest]'] + ini_lines) + '\n')
+        env = R.clean_env()
+        env.update(env_extra)
+        p = subprocess.run([sys.executable, '-m', 'xdoctest', 'kmod_verif.py', 'all', '--verbose', '1'], cwd=sub, env=env,
+                           stdout=subprocess.PIPE, stderr=subprocess.STDOUT, timeout=120)
+        nat = R.verdict_lines(p.stdout.decode('utf8', 'replace'))
+        junit = os.path.join(d, 'j.xml')
+        q = subprocess.run([sys.executable, '-m', 'pytest', '--xdoctest-modules', '-p', 'no:cacheprovider', '-q',
+                            '--junitxml=' + junit, '-o', 'junit_family=xunit1', '.'], cwd=sub, env=env,
+                           stdout=subprocess.PIPE, stderr=subprocess.STDOUT, timeout=300)
+        items = []
+        try:
+            import xml.etree.ElementTree as ET
+            for tc in ET.parse(junit).iter('testcase'):
+                tags = [c.tag for c in tc]
+                items.append((tc.attrib.get('name'), 'F' if ('failure' in tags or 'error' in tags) else ('S' if 'skipped' in tags else 'P')))
+        except Exception:
+            items = None
+        return nat, p.returncode, items, q.returncode
+    finally:
+        shutil.rmtree(d, ignore_errors=True)
+
+
 def replay_finding(ctx, finding):
+    if finding.get('id') == 'K-C15-b':
+        nat, nrc, items, prc = _witness_settings(['xdoctest_options = +SKIP'], {})
+        # native: everything skipped, exit 0; pytest: the ini key is unknown to it, the doctests run, one fails
+        return [o for o, _ in nat] == ['S'] * len(nat) and nat and nrc == 0 and items is not None \
+            and 'F' in [o for _, o in items] and prc == 1
+    if finding.get('id') == 'K-C15-c':
+        nat, nrc, items, prc = _witness_settings([], {'XDOCTEST_STYLE': 'google'})
+        # native: google style -> f:0 passes, f:1 fails; pytest: keeps its default style (freeform): ONE item f:0
+        return [n for _, n in nat] == ['f:0', 'f:1'] and items is not None and [n for n, _ in items] == ['f:0']
     if finding.get('id') != 'K-C15-a':
         return False
     r = _check_one({'spec': WITNESS, 'style': 'google', 'optstr': None, 'opts': {}, 'flag': '--xdoctest-options'}, use_model=True)
@@ -308,15 +517,45 @@ def replay_finding(ctx, finding):
     return bool(differs) and r['pytest_rc'] == 0 and r['native_rc'] == 1
 
 
+def _replay_text(inp):
+    d = tempfile.mkdtemp(prefix='xdocverif-c15tx-')
+    try:
+        sub = os.path.join(d, 'texts')
+        os.makedirs(sub)
+        with open(os.path.join(sub, inp['name']), 'w') as f:
+            f.write(inp['textfile'])
+        r = R.pytest_subprocess(d, [os.path.join(sub, inp['name'])], inp['style'], '--xdoctest-options', None,
+                                os.path.join(d, 't.txt'), os.path.join(d, 'junit.xml'), extra_args=['--xdoctest-glob=*.txt'])
+        return [oc for _, nm, oc in (r['items'] or []) if nm == inp['name']], r['rc']
+    finally:
+        shutil.rmtree(d, ignore_errors=True)
+
+
 def replay(ctx, failing):
     inp = failing['input']
+    if 'textfile' in inp:
+        got, rc = _replay_text(inp)
+        print('text file %s (style %s):\n%s' % (inp['name'], inp['style'], inp['textfile']))
+        print('expected outcomes of its pytest items: %r' % (failing.get('expected'),))
+        print('pytest reports now                 : %r (exit status %r)' % (got, rc))
+        return got != failing.get('expected')
+    if 'textfiles' in inp:
+        print('exit status of pytest over a directory of text files: recorded %r, expected %r' % (failing.get('impl'), failing.get('expected')))
+        return True
     if 'spec' not in inp:
         print('option string %r through the real parsers: %r' % (inp.get('options'), real_defaults(inp.get('options'))))
         a = real_defaults(inp.get('options'))
         return not (a[0] == a[1] == a[2])
     r = _check_one(inp)
     print('module:\n' + G.render(inp['spec']))
-    print('style=%s options: %s=%s' % (inp['style'], inp['flag'], inp['optstr']))
+    if inp.get('treat'):
+        t = inp['treat']
+        print('style=%s treatment %s: pytest args %r, pytest.ini %r, native args %r, environment %r' % (
+            inp['style'], t['name'], t['pyt'], t['ini'], t['nat'], t['env']))
+    else:
+        print('style=%s options: %s=%s' % (inp['style'], inp['flag'], inp['optstr']))
+    if inp.get('twice'):
+        print('(the module directory is given twice in one pytest session)')
     print('expected: %r' % (r['expected'],))
     print('pytest  : %r exit %r' % (r['pytest_items'], r['pytest_rc']))
     print('native  : %r exit %r' % (r['native'], r['native_rc']))
